@@ -203,6 +203,27 @@ def shared_inputs(d, seed, aspects=("model", "jacobians", "predict", "update")):
             fail(f"shared-inputs:compile-raises:{type(e).__name__}", f"compile #{idx} of the same ui.Model raised {type(e).__name__}: {str(e)[:200]}")
             break
         built.append((dv, cse, mdl, ekf))
+        if idx == 0:
+            # the caller goes on editing ITS dictionaries (e.g. to derive a variant) before the compiled objects are used for the
+            # first time: a compiled model / filter is what it was compiled from, and its Jacobians are the partials of ITS functions
+            saved = (dict(uim.state_model), dict(pn), {k: dict(v) for k, v in sens.items()}, {k: dict(v) for k, v in sn.items()}, dict(cm))
+            for k_ in list(uim.state_model):
+                uim.state_model[k_] = uim.state_model[k_] * 2 + 1
+            for k_ in list(pn):
+                pn[k_] = pn[k_] * 4.0
+            for k_ in sens:
+                for r_ in list(sens[k_]):
+                    sens[k_][r_] = sens[k_][r_] * 3 + 1
+                    sn[k_][r_] = sn[k_][r_] * 4.0
+            for k_ in list(cm):
+                cm[k_] = cm[k_] + 1.0
+            check(0, "first use, after the caller edited its own dictionaries")
+            uim.state_model.clear(); uim.state_model.update(saved[0])
+            pn.clear(); pn.update(saved[1])
+            for k_ in sens:
+                sens[k_].clear(); sens[k_].update(saved[2][k_])
+                sn[k_].clear(); sn[k_].update(saved[3][k_])
+            cm.clear(); cm.update(saved[4])
         snap = _snapshot(uim, pn, sens, sn, cms)
         # not a violation on its own (no property forbids it); it is reported WITH a wrong value below, as the explanation
         modified = [k for k in snap0 if snap[k] != snap0[k]]
